@@ -1,7 +1,8 @@
 /-
   C14 — concurrent lookups behave like sequential ones and fetch each record once.
   Property theorems only; helper lemmas live in ModVerif/Proofs/ParCacheInv.lean, ModVerif/Proofs/ClientLatestInv.lean and
-  ModVerif/Proofs/ClientMore{Honest,Flush,Seen,Finish,Max,Fetch,Seq}.lean.
+  ModVerif/Proofs/ClientMore{Honest,Flush,Seen,Finish,Max,Fetch,Seq}.lean; the refinement between the sequential client model
+  (Model/Client.lean) and the two machines: ModVerif/Proofs/ClientRefine{Frame,Head,Step,Sim,Seq,Mem,Cache,Honest,Chain}.lean.
 
   What is modelled: the once-per-key cache (`parCache.Do`, Model/ParCache.lean) and the protocol that maintains the
   in-memory and the stored latest tree head (Model/ClientLatest.lean), both as interleaved small-step machines with any
@@ -15,6 +16,12 @@ import ModVerif.Proofs.ClientMoreMax
 import ModVerif.Proofs.ClientMoreFetch
 import ModVerif.Proofs.ClientMoreSeq
 import ModVerif.Proofs.ClientMoreTie
+import ModVerif.Proofs.ClientRefineSim
+import ModVerif.Proofs.ClientRefineSeq
+import ModVerif.Proofs.ClientRefineCache
+import ModVerif.Proofs.ClientRefineHonest
+import ModVerif.Proofs.ClientRefineMem
+import ModVerif.Proofs.ClientRefineChain
 import ModVerif.Props.C13
 namespace ModVerif.Props.C14
 open ModVerif ModVerif.ParCache
@@ -399,5 +406,483 @@ example : ((run (fun i => lookupKey (fun _ => false) (B "s") (fxPath i) (fxVers 
 example : ∀ i, (fun i => 100 + exKey i) i = (fun k => 100 + k) (exKey i) := fun _ => rfl
 
 end
+
+
+/-! ## Refinement between the sequential client model (Model/Client.lean) and the two concurrent machines
+
+(1) `head_refines_sequential`: ONE goroutine of ONE client of the latest-head machine IS the sequential `mergeLatest`,
+    step for step (the lock-step product `ClientRefine.corun`; the table of transitions and the sequential code each one
+    abstracts is at the top of Proofs/ClientRefineHead.lean).
+(2) `interleaved_eq_sequential_order`: every interleaved honest run ends like the sequential execution of the same
+    lookups in any order; `honest_world_is_honest_machine`: C01's honest world discharges the machine-level honest-server
+    hypothesis (and `Sound`) for the machine over the client's own `checkTrees`; `concurrent_lookups_return_server_lines`:
+    the composed system (record-cache machine whose work function contains the goroutine's `mergeLatest`) returns to
+    every concurrent lookup an honest response of the server, the description `honest_never_fails` gives for the
+    sequential client (`concurrent_and_sequential_same_record`).
+(3) `cache_do_refines_sequential`, `readTile_is_sequential_do`, `record_cache_is_sequential_do`: the association-list
+    caches of the sequential client are the `parCache` machine run by one call at a time.
+What is NOT covered is listed in lean/PENDING.md, section "C14 refinement". -/
+
+section refinement
+open ModVerif.Client ModVerif.ClientRefine
+variable {σ H : Type} [DecidableEq H]
+
+/-- ★ **(1) The sequential `mergeLatest` and one goroutine of the latest-head machine refine each other.**
+`MP` abstracts the client's verification layer (`Abs`: `parse` = `note.Open`+`ParseTree`, size = `Tree.N`, every answer of
+the sequential `checkTrees` — abstracted by `absChk`: nil ↦ ok, the security error after the `SecurityError` callback ↦
+fork, any other error ↦ error — is admissible; instance: C13's `clientParams`, `clientParams_abstracts_client`); the
+configuration file `<name>/latest` of the environment is ONE compare-and-swap cell that nobody else writes (`CfgCell`:
+the restriction to one client; instance: C01's honest environment, `ClientRefine.honestEnv_cfgCell`); the fuel of the
+model's `ErrWriteConflict` loop is at least 1; goroutine `t` is public, is presented `msg0`, has not started; the
+machine state agrees with the sequential world `w` on client `cl t` (`RelG`: name, verifier list, in-memory head and
+its message, configuration content; no cached tile error is the security error).  Then
+ (a) **the sequential result is reached by a run of the machine**: within 10 steps of goroutine `t` alone, answering
+     every choice point (`checkTrees` outcome, `ReadConfig` / `WriteConfig` failure) as the sequential environment does,
+     `t` has returned with the abstraction (`absRes`) of `mergeLatest`'s result, next to the world after `mergeLatest`;
+ (b) **every run of the single goroutine corresponds step for step to the sequential function**: after ANY number of
+     steps of the lock-step product (every run of `t` alone whose choices are the environment's answers is one —
+     `corun` only rejects a choice that differs from `answer`) the machine run is a run of the machine
+     (`ClientLatest.run`), the states still agree — same in-memory head and message, same configuration content —, the
+     successful configuration writes of the machine are exactly the `WriteConfig … = nil` effects of the sequential trace
+     and its `SecurityError` records are exactly the `SecurityError` effects, each text starting with the two notes of
+     the record, older first (`Obs`); and when `t` has returned, the world and the result are those of `mergeLatest`. -/
+theorem head_refines_sequential (P : Params H) (E : Env σ) (MP : MParams H) (cl : Nat → Nat)
+    (presented : Nat → Option Bytes) (priv : Nat → Bool) (name : Bytes) (cfg : σ → Bytes) (vs : List Note.Verifier)
+    (t : Nat) (msg0 : Bytes) (hA : Abs P E vs MP) (hE : CfgCell E name cfg) (hret : 1 ≤ P.retries)
+    (hpres : presented t = optB msg0) (hpriv : priv t = false) (w : World σ H) (s : MSt H)
+    (hR : RelG cl name cfg vs t w s) (hpc : (s.th t).pc = .entry) :
+    (∃ rs s', rs.length ≤ 10 ∧
+      corun P E MP cl presented priv t w s rs = some ((mergeLatest P E w msg0).2, s') ∧
+      (s'.th t).pc = .done (absRes (mergeLatest P E w msg0).1)) ∧
+    (∀ rs w' s', corun P E MP cl presented priv t w s rs = some (w', s') →
+      ClientLatest.run MP cl presented priv s (rs.map fun r => (t, r)) = some s' ∧
+      RelG cl name cfg vs t w' s' ∧ Obs P t w.tr s.writes s.sec w' s' ∧
+      ∀ x, (s'.th t).pc = .done x → w' = (mergeLatest P E w msg0).2 ∧ x = absRes (mergeLatest P E w msg0).1) :=
+  head_refinement hA hE hret hpres hpriv w s hR hpc
+
+/-- **The C13 machine abstracts the sequential client, for every environment**: `Props.C13.clientParams P E vs` satisfies
+`Abs` — so (1) holds for the machine on which C13's theorems are stated (`Sound` for it: `Props.C13.client_sound`). -/
+theorem clientParams_abstracts_client (P : Params H) (E : Env σ) (vs : List Note.Verifier) :
+    Abs P E vs (Props.C13.clientParams P E vs) :=
+  clientParams_abs P E vs
+
+omit [DecidableEq H] in
+/-- what (b) says about the observable effects, spelled out: the sequential trace grew by `ext`, the machine's new
+configuration writes (newest first) are the successful `WriteConfig` effects of `ext`, its new security records are
+related one to one to the `SecurityError` effects of `ext` -/
+theorem obs_spelled_out (P : Params H) (t : Nat) (tr0 : List Effect) (bw : List (Option Bytes × Option Bytes))
+    (bs : List (Nat × Option Bytes × Option Bytes)) (w : World σ H) (s : MSt H) (h : Obs P t tr0 bw bs w s) :
+    ∃ ext, w.tr = tr0 ++ ext ∧ s.writes = (trWrites ext).reverse ++ bw ∧
+      ∃ ns, s.sec = ns ++ bs ∧ SecRel P t ns (trSecs ext) := h
+
+/-! Non-vacuity of (1): C01's concrete honest world (`Props.C01.HonestExample`: one record, toy hashes, a key file that
+`NewVerifier` accepts, a signed head that `note.Open` accepts), the C13 machine over it, goroutine 0 presented the signed
+head of size 1, the initial states. -/
+example :
+    Abs Props.C01.HonestExample.hP (honestEnv Props.C01.HonestExample.hS) [Props.C01.HonestExample.hS.v]
+      (Props.C13.clientParams Props.C01.HonestExample.hP (honestEnv Props.C01.HonestExample.hS)
+        [Props.C01.HonestExample.hS.v]) ∧
+    CfgCell (honestEnv Props.C01.HonestExample.hS) Props.C01.HonestExample.hS.v.name (fun s => s.latest) ∧
+    1 ≤ Props.C01.HonestExample.hP.retries ∧
+    (fun _ : Nat => optB Props.C01.HonestExample.hHead) 0 = optB Props.C01.HonestExample.hHead ∧
+    RelG (fun _ => 0) Props.C01.HonestExample.hS.v.name (fun s : HState => s.latest) [Props.C01.HonestExample.hS.v] 0
+      (⟨⟨[], []⟩, { newClient Props.C01.HonestExample.hP with
+          name := Props.C01.HonestExample.hS.v.name, verifiers := [Props.C01.HonestExample.hS.v] }, []⟩ :
+        World HState UInt8)
+      (ClientLatest.init (Props.C13.clientParams Props.C01.HonestExample.hP (honestEnv Props.C01.HonestExample.hS)
+        [Props.C01.HonestExample.hS.v]) (optB [])) ∧
+    ((ClientLatest.init (Props.C13.clientParams Props.C01.HonestExample.hP (honestEnv Props.C01.HonestExample.hS)
+        [Props.C01.HonestExample.hS.v]) (optB [])).th 0).pc = .entry :=
+  ⟨clientParams_abs _ _ _, honestEnv_cfgCell _, by decide, rfl,
+    relG_init _ _ _ rfl _ _ (fun s : HState => s.latest) 0 ⟨[], []⟩ [], rfl⟩
+
+end refinement
+
+section interleaving
+open ModVerif.ClientLatest
+variable {M T : Type} [DecidableEq M] [DecidableEq T]
+
+/-- ★ **(2) Interleaving theorem.**  Honest server (all presented heads and the initial configuration are heads of one
+log, `checkTrees` answers truthfully).  Let `s` be a terminal state of ANY interleaved run of ANY number of goroutines
+and clients, and `l` ANY order (enumeration without repetition) of the goroutines that ran.  Then the SEQUENTIAL
+execution of the same lookups in the order `l` (`SeqExec`: from the same initial state each goroutine starts when its
+predecessor has returned and runs alone, returning within 10 steps) exists, is an honest run and ends in a terminal
+state `s2` such that: every goroutine has the same outcome in `s2` as in `s`; the stored configurations are equivalent
+(each tree a prefix of the other: the same head of the log); and in both states every client's in-memory head is a
+greatest element of what that client saw and a prefix of the stored head.  (In-memory heads of different clients need
+not agree between the two runs: which configuration contents a client's flushes read depends on the schedule.) -/
+theorem interleaved_eq_sequential_order (P : Params M T) (le : T → T → Prop) (Ch : T → Prop) (cl : Nat → Nat)
+    (presented : Nat → Option M) (priv : Nat → Bool) (c0 : Option M) (hH : Honest P le Ch presented c0)
+    (s : St M T) (h : HReachable P cl presented priv c0 s) (hq : Quiescent s)
+    (l : List Nat) (hnd : l.Nodup) (hl : ∀ t, t ∈ l ↔ (s.th t).pc ≠ .entry) :
+    ∃ bs s2, bs.map (·.1) = l ∧ (∀ b ∈ bs, b.2 ≤ 10) ∧ SeqExec P cl presented priv (init P c0) bs s2 ∧
+      run P cl presented priv (init P c0) (blockSched bs) = some s2 ∧
+      HReachable P cl presented priv c0 s2 ∧ Quiescent s2 ∧
+      (∀ t, (s2.th t).pc = (s.th t).pc) ∧
+      le (cfgTree P s.config) (cfgTree P s2.config) ∧ le (cfgTree P s2.config) (cfgTree P s.config) ∧
+      (∀ c, IsMax le (ClientSaw P cl presented priv s c) (s.latest c) ∧ le (s.latest c) (cfgTree P s.config)) ∧
+      (∀ c, IsMax le (ClientSaw P cl presented priv s2 c) (s2.latest c) ∧ le (s2.latest c) (cfgTree P s2.config)) :=
+  ClientLatest.interleaved_eq_sequential_order P le Ch cl presented priv c0 hH s h hq l hnd hl
+
+/-- … and such an order always exists: the goroutines that ran in a reachable state are finitely many. -/
+theorem interleaved_eq_some_sequential_order (P : Params M T) (le : T → T → Prop) (Ch : T → Prop) (cl : Nat → Nat)
+    (presented : Nat → Option M) (priv : Nat → Bool) (c0 : Option M) (hH : Honest P le Ch presented c0)
+    (s : St M T) (h : HReachable P cl presented priv c0 s) (hq : Quiescent s) :
+    ∃ bs s2, SeqExec P cl presented priv (init P c0) bs s2 ∧ HReachable P cl presented priv c0 s2 ∧ Quiescent s2 ∧
+      (∀ t, (s2.th t).pc = (s.th t).pc) ∧
+      le (cfgTree P s.config) (cfgTree P s2.config) ∧ le (cfgTree P s2.config) (cfgTree P s.config) := by
+  obtain ⟨l, hnd, hl⟩ := ran_enumeration P cl presented priv c0 s h.reachable
+  obtain ⟨bs, s2, _, _, h1, _, h2, h3, h4, h5, h6, _⟩ :=
+    ClientLatest.interleaved_eq_sequential_order P le Ch cl presented priv c0 hH s h hq l hnd hl
+  exact ⟨bs, s2, h1, h2, h3, h4, h5, h6⟩
+
+/-- non-vacuity: the interleaved run `hSched` above (goroutines 0–3, two clients, a lost `latestMu` race, write
+conflicts) satisfies the hypotheses with the order `[0, 1, 2, 3]` -/
+example : ∃ s, HReachable (forkParams 3 false) hCl hPresented hPriv (some (0, 2)) s ∧ Quiescent s ∧
+    [0, 1, 2, 3].Nodup ∧ ∀ t, t ∈ [0, 1, 2, 3] ↔ (s.th t).pc ≠ .entry := by
+  obtain ⟨s, _, a, b, c, _⟩ := hSched_terminal
+  refine ⟨s, a, b, by decide, fun t => ?_⟩
+  have := c t
+  constructor
+  · intro ht e
+    have h4 := this.mp e
+    simp only [List.mem_cons, List.not_mem_nil, or_false] at ht
+    omega
+  · intro hne
+    simp only [List.mem_cons, List.not_mem_nil, or_false]
+    by_cases h0 : t = 0; · exact Or.inl h0
+    by_cases h1 : t = 1; · exact Or.inr (Or.inl h1)
+    by_cases h2 : t = 2; · exact Or.inr (Or.inr (Or.inl h2))
+    by_cases h3 : t = 3; · exact Or.inr (Or.inr (Or.inr h3))
+    exact absurd (this.mpr ⟨h0, h1, h2, h3⟩) hne
+
+/-- ★ **(2, one client) The in-memory head at the end does not depend on the interleaving either.**  Honest server; all
+goroutines belong to ONE client `c` (the setting of C14: concurrent lookups on the same client); `hsz`: a prefix is not
+larger; `hz`: the empty tree has size 0.  Two terminal states in which the same goroutines ran — e.g. an arbitrary
+interleaving and any sequential order of the same lookups — hold equivalent in-memory heads (each a prefix of the other).
+(With several clients sharing the configuration the in-memory heads do depend on the schedule — which configuration
+contents a client's flush reads —; what is schedule independent then is the stored head, `concurrent_heads_eq_sequential`.) -/
+theorem one_client_memory_head_schedule_independent (P : Params M T) (le : T → T → Prop) (Ch : T → Prop) (cl : Nat → Nat)
+    (presented : Nat → Option M) (priv : Nat → Bool) (c0 : Option M) (hH : Honest P le Ch presented c0)
+    (hsz : ∀ a b, le a b → P.size a ≤ P.size b) (hz : P.size P.zero = 0)
+    (s1 s2 : St M T) (h1 : HReachable P cl presented priv c0 s1) (h2 : HReachable P cl presented priv c0 s2)
+    (q1 : Quiescent s1) (q2 : Quiescent s2)
+    (hsame : ∀ t, (s1.th t).pc = .entry ↔ (s2.th t).pc = .entry) (c : Nat) (hone : ∀ t, cl t = c) :
+    le (s1.latest c) (s2.latest c) ∧ le (s2.latest c) (s1.latest c) :=
+  ⟨single_client_mem_le P le Ch cl presented priv c0 hH hsz hz s1 s2 h1 h2 q1 q2 hsame c hone,
+   single_client_mem_le P le Ch cl presented priv c0 hH hsz hz s2 s1 h2 h1 q2 q1 (fun t => (hsame t).symm) c hone⟩
+
+/-- ★ **(2, one client) Interleaving theorem with the in-memory head**: for one client, the terminal state of ANY
+interleaved honest run and the sequential execution of the same lookups in ANY order `l` agree on every goroutine's
+outcome, on the stored configuration and on the client's in-memory head (both up to equivalence of heads). -/
+theorem interleaved_eq_sequential_order_one_client (P : Params M T) (le : T → T → Prop) (Ch : T → Prop) (cl : Nat → Nat)
+    (presented : Nat → Option M) (priv : Nat → Bool) (c0 : Option M) (hH : Honest P le Ch presented c0)
+    (hsz : ∀ a b, le a b → P.size a ≤ P.size b) (hz : P.size P.zero = 0)
+    (s : St M T) (h : HReachable P cl presented priv c0 s) (hq : Quiescent s)
+    (l : List Nat) (hnd : l.Nodup) (hl : ∀ t, t ∈ l ↔ (s.th t).pc ≠ .entry) (c : Nat) (hone : ∀ t, cl t = c) :
+    ∃ bs s2, bs.map (·.1) = l ∧ SeqExec P cl presented priv (init P c0) bs s2 ∧
+      HReachable P cl presented priv c0 s2 ∧ Quiescent s2 ∧
+      (∀ t, (s2.th t).pc = (s.th t).pc) ∧
+      le (cfgTree P s.config) (cfgTree P s2.config) ∧ le (cfgTree P s2.config) (cfgTree P s.config) ∧
+      le (s.latest c) (s2.latest c) ∧ le (s2.latest c) (s.latest c) := by
+  obtain ⟨bs, s2, h0, _, h1, _, h2, h3, h4, h5, h6, _⟩ :=
+    ClientLatest.interleaved_eq_sequential_order P le Ch cl presented priv c0 hH s h hq l hnd hl
+  have hsame : ∀ t, (s.th t).pc = .entry ↔ (s2.th t).pc = .entry := fun t => by rw [h4 t]
+  obtain ⟨m1, m2⟩ := one_client_memory_head_schedule_independent P le Ch cl presented priv c0 hH hsz hz s s2 h h2 hq h3
+    hsame c hone
+  exact ⟨bs, s2, h0, h1, h2, h3, h4, h5, h6, m1, m2⟩
+
+/-! Non-vacuity, one client: goroutines 0–3 of client 0 (presented A@4, A@5, A@3; goroutine 3 private), configuration
+initially A@2; an interleaved schedule (round robin) and the sequential order 2, 1, 0, 3: both end with every goroutine
+returned, stored head and in-memory head A@5. -/
+
+def oSched : List (Nat × Res) :=
+  [0, 1, 2, 3, 0, 1, 2, 0, 1, 2, 0, 1, 2, 0, 1, 2, 0, 1, 2, 0, 1, 0, 1, 0, 1, 0, 1, 1, 1, 1, 1, 1].map fun t => (t, Res.ok)
+
+def oSeq : List (Nat × Res) :=
+  [2, 2, 2, 2, 2, 2, 2, 2, 2, 2, 1, 1, 1, 1, 1, 1, 1, 1, 1, 1, 0, 0, 0, 0, 3].map fun t => (t, Res.ok)
+
+theorem oTerminal (sched : List (Nat × Res)) (hok : ∀ x ∈ sched, x.2 = Res.ok)
+    (hth : ∀ x ∈ sched, x.1 = 0 ∨ x.1 = 1 ∨ x.1 = 2 ∨ x.1 = 3) (s : St Head Head)
+    (hr : run (forkParams 3 false) (fun _ => 0) hPresented hPriv (init (forkParams 3 false) (some (0, 2))) sched = some s)
+    (hd : ∃ x0 x1 x2 x3, (s.th 0).pc = .done x0 ∧ (s.th 1).pc = .done x1 ∧ (s.th 2).pc = .done x2 ∧ (s.th 3).pc = .done x3) :
+    HReachable (forkParams 3 false) (fun _ => 0) hPresented hPriv (some (0, 2)) s ∧ Quiescent s ∧
+    ∀ t, (s.th t).pc = .entry ↔ (t ≠ 0 ∧ t ≠ 1 ∧ t ≠ 2 ∧ t ≠ 3) := by
+  obtain ⟨x0, x1, x2, x3, h0, h1, h2, h3⟩ := hd
+  refine ⟨hreachable_run_ok _ _ _ _ _ sched _ s hok HReachable.init hr, ?_, fun t => ⟨fun he => ?_, fun hne => ?_⟩⟩
+  · apply quiescent_of_run _ _ _ _ _ sched s hr
+    intro x hx
+    rcases hth x hx with e | e | e | e <;> rw [e]
+    · exact ⟨_, h0⟩
+    · exact ⟨_, h1⟩
+    · exact ⟨_, h2⟩
+    · exact ⟨_, h3⟩
+  · refine ⟨?_, ?_, ?_, ?_⟩ <;> intro e <;> subst e <;> simp_all
+  · apply entry_of_run _ _ _ _ _ sched s hr
+    intro x hx e
+    rcases hth x hx with e' | e' | e' | e' <;> omega
+
+/-- the hypotheses of the one-client theorems are satisfied by the two runs, and both end at A@5 -/
+example : ∃ s1 s2, HReachable (forkParams 3 false) (fun _ => 0) hPresented hPriv (some (0, 2)) s1 ∧
+    HReachable (forkParams 3 false) (fun _ => 0) hPresented hPriv (some (0, 2)) s2 ∧ Quiescent s1 ∧ Quiescent s2 ∧
+    (∀ t, (s1.th t).pc = .entry ↔ (s2.th t).pc = .entry) ∧ (∀ t, (fun _ : Nat => 0) t = 0) ∧
+    s1.latest 0 = (0, 5) ∧ s2.latest 0 = (0, 5) ∧ s1.config = some (0, 5) ∧ s2.config = some (0, 5) ∧
+    (∀ a b : Head, forkLe 3 a b = true → (forkParams 3 false).size a ≤ (forkParams 3 false).size b) ∧
+    (forkParams 3 false).size (forkParams 3 false).zero = 0 := by
+  obtain ⟨s1, hs1⟩ : ∃ s, run (forkParams 3 false) (fun _ => 0) hPresented hPriv (init (forkParams 3 false) (some (0, 2))) oSched = some s :=
+    Option.isSome_iff_exists.mp (by decide)
+  obtain ⟨s2, hs2⟩ : ∃ s, run (forkParams 3 false) (fun _ => 0) hPresented hPriv (init (forkParams 3 false) (some (0, 2))) oSeq = some s :=
+    Option.isSome_iff_exists.mp (by decide)
+  have k1 : ((run (forkParams 3 false) (fun _ => 0) hPresented hPriv (init (forkParams 3 false) (some (0, 2))) oSched).map fun s =>
+      ((s.th 0).pc, (s.th 1).pc, (s.th 2).pc, (s.th 3).pc, s.config, s.latest 0)) =
+      some (.done .ok, .done .ok, .done .ok, .done .gonosumdb, some (0, 5), (0, 5)) := by rfl
+  have k2 : ((run (forkParams 3 false) (fun _ => 0) hPresented hPriv (init (forkParams 3 false) (some (0, 2))) oSeq).map fun s =>
+      ((s.th 0).pc, (s.th 1).pc, (s.th 2).pc, (s.th 3).pc, s.config, s.latest 0)) =
+      some (.done .ok, .done .ok, .done .ok, .done .gonosumdb, some (0, 5), (0, 5)) := by rfl
+  rw [hs1] at k1; rw [hs2] at k2
+  simp only [Option.map_some, Option.some.injEq, Prod.mk.injEq] at k1 k2
+  obtain ⟨a0, a1, a2, a3, a4, a5⟩ := k1
+  obtain ⟨b0, b1, b2, b3, b4, b5⟩ := k2
+  obtain ⟨r1, q1, e1⟩ := oTerminal oSched (by decide) (by decide) s1 hs1 ⟨_, _, _, _, a0, a1, a2, a3⟩
+  obtain ⟨r2, q2, e2⟩ := oTerminal oSeq (by decide) (by decide) s2 hs2 ⟨_, _, _, _, b0, b1, b2, b3⟩
+  refine ⟨s1, s2, r1, r2, q1, q2, fun t => (e1 t).trans (e2 t).symm, fun _ => rfl, a5, b5, a4, b4, ?_, rfl⟩
+  intro a b hab
+  simp only [forkLe, Bool.and_eq_true, decide_eq_true_eq] at hab
+  exact hab.1
+
+end interleaving
+
+section composed
+open ModVerif.Client ModVerif.ClientRefine
+variable {H : Type} [DecidableEq H]
+
+/-- ★ **(2) C01's honest world discharges the machine-level honest-server hypothesis — `Sound` included.**
+`honestParams P D S stN` is the latest-head machine whose `parse` is `note.Open`+`ParseTree` under the server's key and
+whose admissible `checkTrees` answers are the abstractions (`absChk`) of the answers the sequential client's `checkTrees`
+gives in the honest worlds of C01 (`honestParams_allows`).  If the world is honest in the sense of `honest_never_fails`
+(`Client.Honest`) and every goroutine is presented the empty message or a head of `D` signed with the server's key
+(likewise the initial configuration), this machine satisfies `ClientLatest.Honest` with the prefix order
+`Props.C13.headLe` and the chain "heads of `D`" — hence every C14 theorem above (`honest_all_succeed`,
+`latest_ends_at_max`, `interleaved_eq_sequential_order`, …) holds for the client's own verification layer; no
+collision-freedom hypothesis is needed on the honest side (for an arbitrary server `Sound` is `Props.C13.client_sound`,
+under injectivity of `NodeHash`). -/
+theorem honest_world_is_honest_machine (P : Params H) (D : List Bytes) (S : Server) (stN : List H)
+    (hon : Client.Honest P D S stN) (presented : Nat → Option Bytes) (c0 : Option Bytes)
+    (hpres : ∀ t, HonestMsg P D S (presented t)) (hc0 : HonestMsg P D S c0) :
+    ClientLatest.Honest (honestParams P D S stN) (Props.C13.headLe P D) (IsHead P D) presented c0 ∧
+    ClientLatest.Sound (honestParams P D S stN) (Props.C13.headLe P D) :=
+  ⟨honestParams_honest P D S stN hon presented c0 hpres hc0,
+   (honestParams_honest P D S stN hon presented c0 hpres hc0).sound⟩
+
+/-- ★ **(2) Closing the chain for the head protocol: a block of a sequential execution of the honest machine IS the
+sequential client's `mergeLatest`.**  C01's honest world (`Client.Honest`); `w` an honest world of the sequential client
+(`HW`: head, configuration, cache, tile cache, record cache honest) with the client's name and verifier; `msg` the empty
+message or a signed head of `D`; the state `s` of the machine over the client's verification layer (`honestParams`)
+agrees with `w` on client `cl t`; goroutine `t` is public, has not started, is presented `msg`.  If `t` runs ALONE with
+every answer `ok` until it has returned — a block of `SeqExec`, as in `interleaved_eq_sequential_order` — then it has
+returned success, the sequential `mergeLatest(msg)` returns nil, and the machine state agrees with the world after
+`mergeLatest`: same in-memory head and message, same configuration content, same successful configuration writes
+(`Obs`).  Together with `interleaved_eq_sequential_order` (every interleaving ends like every sequential order) and
+`honest_world_is_honest_machine`, the head-protocol part of "concurrent = sequential" is a theorem down to the sequential
+client model; what happens between two `mergeLatest` calls of the sequential client (cache reads, `checkRecord`, the
+record cache) frames the head state and is not part of this theorem. -/
+theorem honest_sequential_block_is_mergeLatest (P : Params H) (D : List Bytes) (S : Server) (stN : List H)
+    (hon : Client.Honest P D S stN) (cl : Nat → Nat) (presented : Nat → Option Bytes) (priv : Nat → Bool) (t : Nat)
+    (msg : Bytes) (hmsg : msg = [] ∨ ∃ m, Signed P D S msg m) (hpres : presented t = optB msg) (hpriv : priv t = false)
+    (w : World HState H) (hw : HW P D S stN w) (hname : w.c.name = S.v.name) (hvs : w.c.verifiers = [S.v])
+    (s s' : MSt H) (hR : RelG cl S.v.name (fun x : HState => x.latest) [S.v] t w s) (hpc : (s.th t).pc = .entry)
+    (k : Nat) (hrun : ClientLatest.run (honestParams P D S stN) cl presented priv s
+      (List.replicate k (t, ClientLatest.Res.ok)) = some s')
+    (hdone : ∃ x, (s'.th t).pc = .done x) :
+    (s'.th t).pc = .done .ok ∧ (mergeLatest P (honestEnv S) w msg).1 = .ok () ∧
+    RelG cl S.v.name (fun x : HState => x.latest) [S.v] t (mergeLatest P (honestEnv S) w msg).2 s' ∧
+    Obs P t w.tr s.writes s.sec (mergeLatest P (honestEnv S) w msg).2 s' :=
+  honest_block_is_mergeLatest P D S stN hon cl presented priv t msg hmsg hpres hpriv w hw hname hvs s s' hR hpc k hrun hdone
+
+/-- non-vacuity: C01's concrete honest world, the fresh named client, goroutine 0 presented the signed head `hHead`;
+the block exists (a goroutine scheduled alone returns within 10 steps, `solo_finishes`) -/
+example : ∃ (k : Nat) (s' : MSt UInt8),
+    Client.Honest Props.C01.HonestExample.hP Props.C01.HonestExample.hD Props.C01.HonestExample.hS [7] ∧
+    (Props.C01.HonestExample.hHead = [] ∨ ∃ m, Signed Props.C01.HonestExample.hP Props.C01.HonestExample.hD
+      Props.C01.HonestExample.hS Props.C01.HonestExample.hHead m) ∧
+    HW Props.C01.HonestExample.hP Props.C01.HonestExample.hD Props.C01.HonestExample.hS [7]
+      (⟨⟨[], []⟩, { newClient Props.C01.HonestExample.hP with
+        name := Props.C01.HonestExample.hS.v.name, verifiers := [Props.C01.HonestExample.hS.v] }, []⟩ : World HState UInt8) ∧
+    RelG (fun _ => 0) Props.C01.HonestExample.hS.v.name (fun x : HState => x.latest) [Props.C01.HonestExample.hS.v] 0
+      (⟨⟨[], []⟩, { newClient Props.C01.HonestExample.hP with
+        name := Props.C01.HonestExample.hS.v.name, verifiers := [Props.C01.HonestExample.hS.v] }, []⟩ : World HState UInt8)
+      (ClientLatest.init (honestParams Props.C01.HonestExample.hP Props.C01.HonestExample.hD Props.C01.HonestExample.hS [7])
+        (optB [])) ∧
+    ClientLatest.run (honestParams Props.C01.HonestExample.hP Props.C01.HonestExample.hD Props.C01.HonestExample.hS [7])
+      (fun _ => 0) (fun _ => optB Props.C01.HonestExample.hHead) (fun _ => false)
+      (ClientLatest.init (honestParams Props.C01.HonestExample.hP Props.C01.HonestExample.hD Props.C01.HonestExample.hS [7])
+        (optB [])) (List.replicate k (0, ClientLatest.Res.ok)) = some s' ∧
+    ∃ x, (s'.th 0).pc = .done x := by
+  have hne : optB Props.C01.HonestExample.hHead = some Props.C01.HonestExample.hHead :=
+    optB_isEmpty_false (Client.signed_ne_nil Props.C01.HonestExample.hsigned)
+  have hH := honestParams_honest Props.C01.HonestExample.hP Props.C01.HonestExample.hD Props.C01.HonestExample.hS [7]
+    Props.C01.HonestExample.honest_example (fun _ => optB Props.C01.HonestExample.hHead) (optB [])
+    (fun _ => by rw [hne]; exact ⟨1, Props.C01.HonestExample.hsigned⟩) trivial
+  obtain ⟨k, s', _, hrun, _, hd, _⟩ := ClientLatest.solo_finish _ _ _ (fun _ => 0) _ (fun _ => false) _ hH 0 10 _
+    ClientLatest.HReachable.init (ClientLatest.rank_le _ _ _)
+  exact ⟨k, s', Props.C01.HonestExample.honest_example, Or.inr ⟨1, Props.C01.HonestExample.hsigned⟩,
+    hw_fresh _ _ _ _ _, relG_init _ _ _ rfl _ _ (fun x : HState => x.latest) 0 ⟨[], []⟩ [], hrun, hd⟩
+
+/-- the abstraction map, honest side: whatever the sequential `checkTrees` answers in an honest world is admissible in
+the machine `honestParams` -/
+theorem honestParams_allows (P : Params H) (D : List Bytes) (S : Server) (stN : List H) (w : World HState H)
+    (hw : HW P D S stN w) (hname : w.c.name = S.v.name) (a : Head H) (o1 : Bytes) (b : Head H) (o2 : Bytes)
+    (hle : a.n ≤ b.n) :
+    absChk (checkTrees P (honestEnv S) w a o1 b o2).1 ∈ (honestParams P D S stN).chk a b :=
+  honestParams_chk P D S stN w hw hname a o1 b o2 hle
+
+/-- ★ **(2) With an honest server every concurrent lookup returns exactly the server's lines — the composed system.**
+`Composed.CReach`: the record-cache machine (`parCache.Do` with the client's keys `lookupKey`) and the latest-head
+machine over the client's verification layer (`honestParams`) run side by side; a caller's `runF` step is refined by
+the run of its goroutine's `mergeLatest` (presented the tree note of the server's response), interleaved with everything
+else, and stores the server's response when that `mergeLatest` has returned success (`workOf`).  Hypotheses: those of
+`honest_never_fails` for every goroutine's request.  In every reachable state of the composed system: each distinct
+lookup file was fetched at most once; every goroutine that has returned holds an honest response `d` of the server for
+its module and `Lookup` returns `filterLines (path vers ) d`; no `mergeLatest` has failed; `SecurityError` was never
+called.  NOT modelled concurrently (collapsed into `workOf`): the cache/network reads, `ParseRecord`, `checkRecord` and
+`WriteCache` of the work function — for the sequential client they succeed in the honest world by `honest_never_fails`. -/
+theorem concurrent_lookups_return_server_lines (P : Params H) (D : List Bytes) (S : Server) (stN : List H)
+    (hon : Client.Honest P D S stN) (path vers rp resp : Nat → Bytes)
+    (hreq : ∀ i, ∃ epath evers id, Module.escapePath (path i) = .ok epath ∧
+      Module.escapeVersion P.isLetter (Client.trimGoMod (vers i)) = .ok evers ∧
+      rp i = B "/lookup/" ++ (epath ++ ([64] ++ evers)) ∧ S.index (rp i) = some id)
+    (hresp : ∀ i, S.serve (rp i) = some (resp i))
+    (presented : Nat → Option Bytes)
+    (hpres : ∀ i id text head, TlogNote.parseRecord (resp i) = some (id, text, head) → presented i = some head)
+    (c0 : Option Bytes) (hc0 : HonestMsg P D S c0) (cl : Nat → Nat)
+    (s : Composed.CSt Bytes (Head H) (Except Err Bytes))
+    (h : Composed.CReach (honestParams P D S stN) cl presented
+      (fun i => ClientFetch.lookupKey P.isLetter S.v.name (path i) (vers i)) (workOf resp) c0 s) :
+    (∀ k, s.c.runs k ≤ 1) ∧
+    (∀ i, s.c.pc i = .returned → ∃ d, HonestLookup P D S (rp i) d ∧ s.c.got i = some (.ok d) ∧
+      (s.c.got i).map (lookupResult (path i) (vers i)) =
+        some (.ok (filterLines (path i ++ [32] ++ vers i ++ [32]) d))) ∧
+    (∀ t, (s.l.th t).pc ≠ .done .err ∧ (s.l.th t).pc ≠ .done .security) ∧ s.l.sec = [] :=
+  concurrent_lookups_honest P D S stN hon path vers rp resp hreq hresp presented hpres c0 hc0 cl s h
+
+/-- **… and that is the sequential client's answer**: for the same request the sequential `Lookup` (any honest initial
+state, after any earlier lookups; `honest_never_fails`) and a returned concurrent lookup of the composed system both
+deliver the prefix-filtered lines of an honest response for the module, and the two responses carry the SAME record —
+number `S.index`, text `D[id]` — (they can differ only in the signed head that follows it). -/
+theorem concurrent_and_sequential_same_record (P : Params H) (D : List Bytes) (S : Server) (stN : List H)
+    (hon : Client.Honest P D S stN) (s0 : HState) (hs0 : HonestState P D S stN s0) (earlier : List (Bytes × Bytes))
+    (path vers epath evers : Bytes) (id : Nat)
+    (hskip : Module.matchPrefixPatterns P.glob P.nosumdb path = false)
+    (hep : Module.escapePath path = .ok epath) (hev : Module.escapeVersion P.isLetter (trimGoMod vers) = .ok evers)
+    (hidx : S.index (B "/lookup/" ++ (epath ++ ([64] ++ evers))) = some id)
+    (dc : Bytes) (hdc : HonestLookup P D S (B "/lookup/" ++ (epath ++ ([64] ++ evers))) dc) :
+    ∃ ds, HonestLookup P D S (B "/lookup/" ++ (epath ++ ([64] ++ evers))) ds ∧
+      (lookup P (honestEnv S) (runLookups P (honestEnv S) ⟨s0, newClient P, []⟩ earlier) path vers).1 =
+        .ok (filterLines (path ++ [32] ++ vers ++ [32]) ds) ∧
+      ∃ text hc hs, D[id]? = some text ∧ TlogNote.parseRecord dc = some ((id : Int), text, hc) ∧
+        TlogNote.parseRecord ds = some ((id : Int), text, hs) := by
+  obtain ⟨ds, h1, h2⟩ := Props.C01.honest_never_fails P D S stN hon s0 hs0 earlier path vers epath evers id hskip hep hev hidx
+  obtain ⟨t1, hd1, _, p1, g1, _, _⟩ := Props.C01.honestLookup_record P D S _ dc id hdc hidx
+  obtain ⟨t2, hd2, _, p2, g2, _, _⟩ := Props.C01.honestLookup_record P D S _ ds id h1 hidx
+  have : t1 = t2 := by rw [g1] at g2; exact Option.some.inj g2
+  subst this
+  exact ⟨ds, h1, h2, t1, hd1, hd2, g1, p1, p2⟩
+
+/-! Non-vacuity of the composed theorems: C01's concrete honest world; every goroutine asks for `example.com/m v1.0.0`,
+the server's response is `hResp`, its tree note `hHead` is a signed head of the log; the configuration starts empty; the
+initial state of the composed system is reachable, and so is the state after caller 0 has entered `Do`. -/
+example : Client.Honest Props.C01.HonestExample.hP Props.C01.HonestExample.hD Props.C01.HonestExample.hS [7] ∧
+    (∀ _ : Nat, HonestMsg Props.C01.HonestExample.hP Props.C01.HonestExample.hD Props.C01.HonestExample.hS
+      (some Props.C01.HonestExample.hHead)) ∧
+    HonestMsg Props.C01.HonestExample.hP Props.C01.HonestExample.hD Props.C01.HonestExample.hS none :=
+  ⟨Props.C01.HonestExample.honest_example, fun _ => ⟨1, Props.C01.HonestExample.hsigned⟩, trivial⟩
+
+example :
+    (∀ _ : Nat, ∃ epath evers id, Module.escapePath (B "example.com/m") = .ok epath ∧
+      Module.escapeVersion Props.C01.HonestExample.hP.isLetter (Client.trimGoMod (B "v1.0.0")) = .ok evers ∧
+      Props.C01.HonestExample.hPath = B "/lookup/" ++ (epath ++ ([64] ++ evers)) ∧
+      Props.C01.HonestExample.hS.index Props.C01.HonestExample.hPath = some id) ∧
+    Props.C01.HonestExample.hS.serve Props.C01.HonestExample.hPath = some Props.C01.HonestExample.hResp ∧
+    (∀ id text head, TlogNote.parseRecord Props.C01.HonestExample.hResp = some (id, text, head) →
+      (some Props.C01.HonestExample.hHead : Option Bytes) = some head) ∧
+    ∃ s, Composed.CReach (honestParams Props.C01.HonestExample.hP Props.C01.HonestExample.hD Props.C01.HonestExample.hS [7])
+      (fun _ => 0) (fun _ => some Props.C01.HonestExample.hHead)
+      (fun _ => ClientFetch.lookupKey Props.C01.HonestExample.hP.isLetter Props.C01.HonestExample.hS.v.name
+        (B "example.com/m") (B "v1.0.0")) (workOf fun _ => Props.C01.HonestExample.hResp) none s ∧
+      s.c.pc 0 = .load := by
+  refine ⟨fun _ => ⟨B "example.com/m", B "v1.0.0", 0, by decide +kernel, by decide +kernel, rfl, by
+      simp [Props.C01.HonestExample.hS]⟩, by simp [Props.C01.HonestExample.hS], ?_, ?_⟩
+  · intro id text head hp
+    have h : (TlogNote.parseRecord Props.C01.HonestExample.hResp ==
+        some (0, Props.C01.HonestExample.hText, Props.C01.HonestExample.hHead)) = true := by decide +kernel
+    have h' : TlogNote.parseRecord Props.C01.HonestExample.hResp =
+        some (0, Props.C01.HonestExample.hText, Props.C01.HonestExample.hHead) := by simpa using h
+    rw [h'] at hp
+    cases hp; rfl
+  · refine ⟨_, Composed.CReach.step Composed.CReach.init
+      (Composed.CStep.cache _ 0 _ (fun _ => .error .note) (by simp [ParCache.init]) rfl), ?_⟩
+    simp [ParCache.init]
+
+end composed
+
+section caches
+open ModVerif.Client ModVerif.ClientRefine
+
+/-- ★ **(3) The association-list cache of the sequential client is the `parCache.Do` machine run by one call at a
+time.**  `seqDo c k f` is the sequential model (`match c.lookup k with | some r => (r, c) | none => (f, (k, f) :: c)`,
+errors cached too).  If between calls (`SeqState`: nobody is inside `Do`, no entry is locked, entries are in the map iff
+done) the association list `c` is the content of the machine state (`CacheRel`, keys numbered injectively by `enc`), then
+a call `Do(k, f)` by caller `i` running ALONE returns within 10 steps (4 on a hit, 10 on a miss), in a state between
+calls again; it returns `(seqDo c k f).1`; the new content is `(seqDo c k f).2`; `f` has run iff the lookup missed;
+nobody else's program counter or result changes.  Every run of `i` alone that reaches `returned` is this run
+(`ClientRefine.solo_do`).  The table of transitions / sequential code is at the top of Proofs/ClientRefineCache.lean. -/
+theorem cache_do_refines_sequential {K V : Type} [BEq K] [LawfulBEq K] (enc : K → Nat)
+    (henc : ∀ a b, enc a = enc b → a = b) (key : Nat → Nat) (fval : Nat → V) (c : List (K × V)) (s : ParCache.St V)
+    (hS : SeqState s) (hc : CacheRel enc c s) (i : Nat) (k : K) (hk : key i = enc k) (hi : s.pc i = .idle) :
+    ∃ n s', n ≤ 10 ∧ ParCache.run key fval s (List.replicate n i) = some s' ∧ SeqState s' ∧ s'.pc i = .returned ∧
+      s'.got i = some (seqDo c k (fval i)).1 ∧ CacheRel enc (seqDo c k (fval i)).2 s' ∧
+      (s'.runs (enc k) = s.runs (enc k) + if c.lookup k = none then 1 else 0) ∧
+      (∀ j, j ≠ i → s'.pc j = s.pc j ∧ s'.got j = s.got j) :=
+  seqDo_refines enc henc key fval c s hS hc i k hk hi
+
+/-- **`Client.readTile` (Model/Client.lean) is `seqDo` on `c.tileCache`** with work function `readTileWork` (the only
+reader of tile files and tile URLs); on a hit the world does not change at all. -/
+theorem readTile_is_sequential_do {σ H : Type} (E : Env σ) (w : World σ H) (t : Tile.Tile) :
+    (readTile E w t).1 = (seqDo w.c.tileCache t (readTileWork E w t).1).1 ∧
+    (readTile E w t).2.c.tileCache = (seqDo w.c.tileCache t (readTileWork E w t).1).2 ∧
+    (∀ r, w.c.tileCache.lookup t = some r → (readTile E w t).2 = w) ∧
+    (w.c.tileCache.lookup t = none →
+      (readTile E w t).2 = { (readTileWork E w t).2 with
+        c := { (readTileWork E w t).2.c with tileCache := (t, (readTileWork E w t).1) :: w.c.tileCache } }) :=
+  readTile_is_seqDo E w t
+
+/-- **The record cache of `Client.lookup` (see `lookup_uses_fetch_key` for the key) is `seqDo` on `c.record`** with work
+function `lookupWork`, which itself never touches the record cache; on a hit the world does not change at all. -/
+theorem record_cache_is_sequential_do {σ H : Type} [DecidableEq H] (P : Params H) (E : Env σ) (w : World σ H)
+    (file remotePath : Bytes) :
+    let res : Except Err Bytes × World σ H :=
+      match w.c.record.lookup file with
+      | some r => (r, w)
+      | none =>
+        let r := lookupWork P E w file remotePath
+        (r.1, { r.2 with c := { r.2.c with record := (file, r.1) :: r.2.c.record } })
+    res.1 = (seqDo w.c.record file (lookupWork P E w file remotePath).1).1 ∧
+    res.2.c.record = (seqDo w.c.record file (lookupWork P E w file remotePath).1).2 ∧
+    (∀ r, w.c.record.lookup file = some r → res.2 = w) :=
+  record_is_seqDo P E w file remotePath
+
+/-- non-vacuity of (3): the initial state is a state between calls and stands for the empty association list -/
+example : SeqState (ParCache.init Nat) ∧ CacheRel (fun k : Nat => k) ([] : List (Nat × Nat)) (ParCache.init Nat) ∧
+    (ParCache.init Nat).pc 0 = .idle :=
+  ⟨seqState_init, fun _ => rfl, rfl⟩
+
+/-- … and a concrete sequential use: callers 0 and 1 ask for key 7 one after the other (a miss: 10 steps, then a hit:
+4 steps), caller 2 for key 9; the second caller gets the first caller's value, `f` ran once per key -/
+example : ((ParCache.run exKey exVal (ParCache.init Nat)
+      (List.replicate 10 0 ++ List.replicate 4 1 ++ List.replicate 10 2)).map
+    (fun s => (s.got 0, s.got 1, s.got 2, s.runs 7, s.runs 9, s.pc 0, s.pc 1, s.pc 2))) =
+    some (some 10, some 10, some 12, 1, 1, .returned, .returned, .returned) := by rfl
+
+end caches
 
 end ModVerif.Props.C14
